@@ -254,7 +254,7 @@ pub fn eval(expr: Node) -> Result<Number, Box<dyn error::Error>> {
             if sub_expr < -min_one.exp() {
                 return Err("The Lambert W function is not defined for {}.".into());
             }
-            let iterations = (4).max((sub_expr.log10() / 3.0).ceil() as i32);
+            let iterations = (4).max((sub_expr.log10() / 3.0).ceil() as i32).min(128);
             let mut w: f64 = 0.0;
             for _ in 0..iterations {
                 let exp_w = w.exp();
@@ -276,8 +276,12 @@ pub fn eval(expr: Node) -> Result<Number, Box<dyn error::Error>> {
             };
             let mut x: i64 = 0;
             while n > 1.0 {
+                let next = (n.log10() / b.log10()).floor();
+                if !(next < n) || x >= 64 {
+                    return Err("The iterated logarithm does not converge for this base".into());
+                }
                 x += 1;
-                n = (n.log10() / b.log10()).floor();
+                n = next;
             }
             Ok(Number::Integer(x))
         }
